@@ -577,3 +577,44 @@ package cmd
 //@ loop (*SumDiffCommand).execute#0
 //@   invariant bounds: 0 <= iter && iter <= len(items)
 //@   invariant leak: ghost(nopen, 0) == old(ghost(nopen, 0)) && ghost(nlocked, 0) == old(ghost(nlocked, 0))
+
+// ---------------------------------------------------------------- generate (C20, C16)
+
+//@ func randomValWithHighSum
+//@   props C20 C16
+//@   requires r != nil && highRndMax >= 0 && highRndMax < 4611686018427387904 && (len(highPts) > 0 ==> highRet != nil && highRet.secondsPerPoint > 0) && r.secondsPerPoint > 0
+//@   ensures any: true
+//@ loop randomValWithHighSum#0
+//@   invariant bounds: 0 <= iter && iter <= len(highPts)
+
+//@ func randomPoints
+//@   props C20 C16
+//@   requires r != nil && r.secondsPerPoint > 0 && r.numberOfPoints > 0 && r.secondsPerPoint * r.numberOfPoints <= 2147483647
+//@   requires 0 <= rndMax && rndMax < 4611686018427387904 && 0 <= highRndMax && highRndMax < 4611686018427387904
+//@   requires until == now && (highPts.arr != 0 ==> len(highPts) > 0 && highRet != nil && highRet.secondsPerPoint > 0)
+//@   ensures shape: len(result) == r.numberOfPoints && fresh(result)
+//@ loop randomPoints#0
+//@   invariant bounds: 0 <= i && i <= n && n == len(points) && points.arr > old(top)
+
+//@ func randomPointsList
+//@   props C20 C16
+//@   requires 0 <= rndMaxForHightestArchive && rndMaxForHightestArchive <= 2147483647 && until == now && wellFormed(retentions)
+//@   ensures shape: len(result) == len(retentions) && fresh(result)
+//@   ensures each: forall k :: 0 <= k && k < len(retentions) ==> len(result[k]) == retentions[k].numberOfPoints
+//@ loop randomPointsList#0
+//@   invariant bounds: 0 <= i && i <= len(retentions) && len(pointsList) == len(retentions) && pointsList.arr > old(top)
+//@   invariant each: forall k :: 0 <= k && k < i ==> len(pointsList[k]) == retentions[k].numberOfPoints
+//@   invariant high: (i == 0 ==> highPts.arr == 0 && len(highPts) == 0) && (i > 0 ==> len(highPts) > 0 && highRet != nil && highRet.secondsPerPoint > 0) && 0 <= highRndMax && highRndMax < 4611686018427387904
+
+//@ func (*GenerateCommand).execute
+//@   props C20 C16 C05
+//@   requires c != nil
+//@   assume now != 0 && clockOK(db, now) && timesUpTo(pointsList, now) && separate(pointsList) before updateFileDataWithPointsList
+//@   modifies ghost(nopen, 0), ghost(nlocked, 0), rows(Point), c.ArchiveInfoList[0:len(c.ArchiveInfoList)]
+//@   ensures no_leak: ghost(nopen, 0) == old(ghost(nopen, 0)) && ghost(nlocked, 0) == old(ghost(nlocked, 0))
+//@   check[C20] layout: result0 == nil ==> db != nil && db.header.aggregationMethod == c.AggregationMethod && bits(db.header.xFilesFactor) == bits(c.XFilesFactor)
+//@                 && db.header.archiveInfoList === c.ArchiveInfoList && wellFormed(c.ArchiveInfoList)
+//@   check[C20] filled: result0 == nil && c.Fill ==> called(updateFileDataWithPointsList) && callret(updateFileDataWithPointsList, 0) == nil
+//@                 && len(ptsList) == len(c.ArchiveInfoList) && (forall k :: 0 <= k && k < len(ptsList) ==> len(ptsList[k]) == c.ArchiveInfoList[k].numberOfPoints)
+//@   check[C20] empty: result0 == nil && !c.Fill ==> !called(updateFileDataWithPointsList)
+//@   check[C20,C05] synced: result0 == nil ==> called("(*Whisper).Sync") && callret("(*Whisper).Sync", 0) == nil
